@@ -1507,3 +1507,369 @@ Proof.
   - cbn in Hl. cbn [map]. rewrite list_sum_cons, (Z 0 h); [|lia|reflexivity].
     apply (IH t Hl). intros u l' Hne Hu. apply (Z (S u) l'); [lia|exact Hu].
 Qed.
+
+From GV Require Import Progress.
+(* ---------- bounded work: a measure every step decreases ---------- *)
+(* budget of what a destructor / callback with re-entry mode m may still cause: the instructions it pushes plus
+   the budget of the child it hands over (mode m >= 5: a chain, the child's mode is smaller) *)
+Fixpoint Rr (m : nat) : nat :=
+  match m with
+  | 0 => 0 | 1 => 2 | 2 => 6 | 3 => 6 | 4 => 47 | 5 => 12
+  | S p => 6 + Rr p
+  end.
+Definition qd (d : Z) (k : nat) : nat := dcount d - k.
+Definition Tq (ii : nat) : nat := 6 - ii.
+Definition wprog (o : op) : nat :=
+  match o with
+  | Add _ dm cm => 9 + Rr dm + Rr cm
+  | Drop _ => 6
+  | DestroyObjects => 8
+  | DestroyObjectsDelay d => 7 + 14 * dcount d
+  | Size => 4
+  | DestroyContainer => 71
+  | Readd _ => 9
+  end.
+Definition wi (i : instr) : nat :=
+  match i with
+  | IInvoke o => wprog o
+  | IEndOp _ | ISetRv _ | ISetRvSize | IFault _ | IUnlock | IDtor _ _ | ISleep | IYield => 1
+  | ISizeLock | IRelock _ | IDcVec => 2
+  | IAddLock _ | IDoTry => 6
+  | IClear _ l => 1 + 2 * length l
+  | ICb _ rest ec _ => 2 * (1 + length rest) + 2 * length ec + 4
+  | IDdTry d => 5 + 14 * dcount d
+  | IDdLoop d k _ => 4 + 14 * qd d k
+  | IDdBody d k => 13 + 14 * (qd d k - 1)
+  | IDdTryA d k _ => 14 + 14 * (qd d k - 1)
+  | IDdTryB d k _ => 5 + 14 * qd d k
+  | IDcGate => 69
+  | IDcLoop ii => 17 + 10 * Tq (S ii)
+  | IDcAfter ii => 10 + 10 * Tq ii
+  end.
+Definition wst (st : list instr) : nat := list_sum (map wi st).
+Definition pot (g : glob) (o : nat) : nat :=
+  (if cbc g o =? 0 then Rr (cmode g o) else 0) + (if dcnt g o =? 0 then Rr (dmode g o) else 0).
+Definition phi (g : glob) : nat := list_sum (map (pot g) (seq 1 (nobj g))).
+Definition wl (l : loc) : nat := list_sum (map wprog (prog l)) + wst (stk l).
+Definition mu (s : sysD) : nat := phi (gl s) + 4 * length (vec (gl s)) + list_sum (map wl (thr s)).
+
+Lemma wst_app a b : wst (a ++ b) = wst a + wst b.
+Proof. unfold wst. rewrite map_app, list_sum_app. reflexivity. Qed.
+Lemma wst_cons i st : wst (i :: st) = wi i + wst st.
+Proof. reflexivity. Qed.
+Lemma Rr_S p : 5 <= p -> Rr (S p) = 6 + Rr p.
+Proof. intros H. do 5 (destruct p as [|p]; [lia|]). reflexivity. Qed.
+Lemma Rr_child m : 5 <= m -> Rr m = 6 + Rr (child_mode m).
+Proof.
+  intros H. unfold child_mode. destruct (Nat.eqb_spec m 5) as [->|Hne]; [reflexivity|].
+  destruct m as [|p]; [lia|]. rewrite Rr_S by lia. reflexivity.
+Qed.
+
+(* sums over the objects *)
+Lemma sum_change (f f' : nat -> nat) o l : NoDup l -> In o l -> (forall x, x <> o -> f' x = f x) ->
+  list_sum (map f' l) + f o = list_sum (map f l) + f' o.
+Proof.
+  induction l as [|h r IH]; intros ND Hin Hs; [destruct Hin|]. inversion ND; subst. cbn [map]. rewrite !list_sum_cons.
+  destruct Hin as [->|Hin].
+  - assert (list_sum (map f' r) = list_sum (map f r)); [|lia].
+    f_equal. apply map_ext_in. intros x Hx. apply Hs. intros ->. contradiction.
+  - specialize (IH H2 Hin Hs). rewrite (Hs h) by (intros ->; contradiction). lia.
+Qed.
+Lemma sum_same (f f' : nat -> nat) l : (forall x, In x l -> f' x = f x) -> list_sum (map f' l) = list_sum (map f l).
+Proof. intros H. f_equal. apply map_ext_in. exact H. Qed.
+Lemma created_In g o : created g o = true <-> In o (seq 1 (nobj g)).
+Proof.
+  unfold created. rewrite in_seq, andb_true_iff, !Nat.leb_le. lia.
+Qed.
+
+Lemma phi_new g dm cm g' x : new_obj g dm cm = (g', x) ->
+  phi g' <= phi g + Rr dm + Rr cm /\ vec g' = vec g.
+Proof.
+  unfold new_obj. intros H. inversion H; subst; clear H. split; [|reflexivity].
+  unfold phi. cbn [nobj]. rewrite seq_S, map_app, list_sum_app. cbn [map Nat.add]. rewrite list_sum_cons.
+  assert (list_sum (map (pot (Glob (cf g) (mtx g) (vec g) (cstate g) (slots g) (fupd (rc g) (S (nobj g)) 1) (S (nobj g)) (ncb g)
+             (busy g) (fupd (dmode g) (S (nobj g)) dm) (fupd (cmode g) (S (nobj g)) cm) (gh g))) (seq 1 (nobj g)))
+          = list_sum (map (pot g) (seq 1 (nobj g)))) as ->.
+  { apply sum_same. intros o Ho. apply in_seq in Ho. unfold pot, cbc, dcnt. cbn. rewrite !fupd_ne by lia. reflexivity. }
+  unfold pot at 2. cbn [cmode dmode]. rewrite !fupd_eq. cbn [list_sum fold_right].
+  destruct (_ =? 0), (_ =? 0); lia.
+Qed.
+
+Lemma phi_cb g n o : created g o = true -> cbc g o = 0 ->
+  phi (log_cb (set_ncb g n) o) + Rr (cmode g o) = phi g.
+Proof.
+  intros Hc Hz. unfold phi. cbn [nobj log_cb set_ncb set_gh].
+  pose proof (sum_change (pot g) (pot (log_cb (set_ncb g n) o)) o (seq 1 (nobj g)) (seq_NoDup _ _)
+                (proj1 (created_In g o) Hc)) as E.
+  assert (P1 : forall x, x <> o -> pot (log_cb (set_ncb g n) o) x = pot g x).
+  { intros x Hx. unfold pot, cbc, dcnt. cbn -[cnt]. rewrite cnt_cons. destruct (Nat.eqb_spec o x); [congruence|reflexivity]. }
+  specialize (E P1).
+  assert (P2 : pot (log_cb (set_ncb g n) o) o + Rr (cmode g o) = pot g o).
+  { unfold pot, cbc, dcnt in *. cbn -[cnt]. rewrite cnt_cons, Nat.eqb_refl, Hz. cbn. lia. }
+  cbn [nobj log_cb set_ncb set_gh] in E. lia.
+Qed.
+Lemma phi_d g o : created g o = true -> dcnt g o = 0 -> phi (log_d g o) + Rr (dmode g o) = phi g.
+Proof.
+  intros Hc Hz. unfold phi. cbn [nobj log_d set_gh].
+  pose proof (sum_change (pot g) (pot (log_d g o)) o (seq 1 (nobj g)) (seq_NoDup _ _) (proj1 (created_In g o) Hc)) as E.
+  assert (P1 : forall x, x <> o -> pot (log_d g o) x = pot g x).
+  { intros x Hx. unfold pot, cbc, dcnt. cbn -[cnt]. rewrite cnt_cons. destruct (Nat.eqb_spec o x); [congruence|reflexivity]. }
+  specialize (E P1).
+  assert (P2 : pot (log_d g o) o + Rr (dmode g o) = pot g o).
+  { unfold pot, cbc, dcnt in *. cbn -[cnt]. rewrite cnt_cons, Nat.eqb_refl, Hz. cbn. lia. }
+  cbn [nobj log_d set_gh] in E. lia.
+Qed.
+
+Lemma reenter_mu g m g' push : reenter g m = (g', push) ->
+  phi g' + wst push <= phi g + Rr m /\ vec g' = vec g.
+Proof.
+  unfold reenter. destruct (cstate g =? 2); [intros H; inversion H; subst; cbn; split; [lia|reflexivity]|].
+  destruct m as [|[|[|[|[|m]]]]]; try (intros H; inversion H; subst; cbn; split; [lia|reflexivity]).
+  - destruct (new_obj g 0 0) as [g1 x] eqn:N. intros H; inversion H; subst. destruct (phi_new _ _ _ _ _ N) as [A B].
+    split; [cbn in *; lia|exact B].
+  - destruct (new_obj g _ 0) as [g1 x] eqn:N. intros H; inversion H; subst. destruct (phi_new _ _ _ _ _ N) as [A B].
+    split; [|exact B]. rewrite (Rr_child (S (S (S (S (S m)))))) by lia. cbn [wst map wi list_sum fold_right Rr] in *. lia.
+Qed.
+
+Lemma cnt_len_le l : forall c, (forall o, cnt o l <= cnt o c) -> length l <= length c.
+Proof.
+  induction l as [|x l IH]; intros c H; [cbn; lia|].
+  assert (In x c) as Hin. { apply cnt_In. specialize (H x). rewrite cnt_cons, Nat.eqb_refl in H. lia. }
+  apply in_split in Hin. destruct Hin as [c1 [c2 ->]].
+  assert (length l <= length (c1 ++ c2)).
+  { apply IH. intros o. specialize (H o). rewrite cnt_cons in H. rewrite !cnt_app in *. rewrite cnt_cons in H. lia. }
+  rewrite !app_length in *. cbn [length] in *. lia.
+Qed.
+
+Ltac phi_norm g := repeat match goal with |- context [phi ?x] => lazymatch x with g => fail | _ => change (phi x) with (phi g) end end.
+Ltac wnorm := cbn [wst map wi list_sum fold_right wprog length app].
+
+Lemma invoke_mu g o g' push : invoke g o = (g', push) ->
+  phi g' + wst push < phi g + wprog o /\ vec g' = vec g.
+Proof.
+  unfold invoke. destruct o; destruct (negb (cstate g =? 0)); try (intros H; injection H as <- <-; wnorm; split; [lia|reflexivity]).
+  - destruct (new_obj g dm cm) as [g1 x] eqn:N. destruct (phi_new _ _ _ _ _ N) as [A B].
+    assert (C : phi (set_slots (inc_rc g1 x) ((slot, x) :: slots g1)) = phi g1) by reflexivity.
+    destruct (_ && _); intros H; injection H as <- <-; wnorm; rewrite ?C; split; (lia || exact B).
+  - destruct (slot_get slot (slots g)); intros H; injection H as <- <-; wnorm; phi_norm g; split; (lia || reflexivity).
+  - destruct (slot_get slot (slots g)); intros H; injection H as <- <-; wnorm; phi_norm g; split; (lia || reflexivity).
+  - destruct (slot_get slot (slots g)); intros H; injection H as <- <-; wnorm; phi_norm g; split; (lia || reflexivity).
+Qed.
+
+Ltac bools :=
+  repeat match goal with
+  | H : (_ && _) = true |- _ => apply andb_true_iff in H; destruct H
+  | H : (_ && _) = false |- _ => apply andb_false_iff in H
+  | H : (_ <? _) = true |- _ => apply Nat.ltb_lt in H
+  | H : (_ <? _) = false |- _ => apply Nat.ltb_ge in H
+  | H : (_ =? _) = true |- _ => apply Nat.eqb_eq in H
+  | H : (_ =? _) = false |- _ => apply Nat.eqb_neq in H
+  end.
+
+Lemma exec_mu g ls t l i st c g' r' push es :
+  Inv g ls -> nth_error ls t = Some l -> stk l = i :: st -> exec t c g (rv l) i = Some (g', r', push, es) ->
+  phi g' + 4 * length (vec g') + wst push < phi g + 4 * length (vec g) + wi i.
+Proof.
+  intros [HC [HL HB]] Hl Hs Hx.
+  destruct i; norm_exec Hx.
+  all: try (solve [
+    repeat match type of Hx with
+           | context [if ?x then _ else _] => destruct x eqn:?
+           | context [match ?x with _ => _ end] => destruct x eqn:?
+           end; try discriminate;
+    injection Hx as <- <- <- <-; wnorm; phi_norm g;
+    cbn [vec set_mtx set_vec set_cstate set_busy set_gh log_add log_rel log_reaped set_rc dec_rc length app];
+    unfold qd, Tq in *; bools; rewrite ?app_length; try match goal with H : vec _ = _ |- _ => rewrite H end; cbn [length]; lia ]).
+  - (* IInvoke *)
+    destruct (invoke g o) as [g1 push1] eqn:IV. injection Hx as <- <- <- <-.
+    destruct (invoke_mu _ _ _ _ IV) as [A B]. rewrite B. cbn [wi]. lia.
+  - (* IAddLock *)
+    destruct (cstate g =? 2); [injection Hx as <- <- <- <-; wnorm; lia|].
+    norm_exec Hx. injection Hx as <- <- <- <-. wnorm. phi_norm g. cbn [vec set_mtx set_vec set_gh log_add].
+    rewrite app_length. cbn [length]. lia.
+  - (* IDoTry *)
+    cbn [vec rc set_mtx] in Hx.
+    destruct (scan (vec g) (rc g)) as [ec r1] eqn:SC.
+    destruct ec as [|e ec']; [injection Hx as <- <- <- <-; wnorm; phi_norm g; cbn [vec set_mtx]; lia|].
+    remember (e :: ec') as ec eqn:Hec.
+    destruct (sweep (vec g) ec r1) as [v2 r2] eqn:SW.
+    pose proof (scan_sweep (vec g) (rc g) (fun o => ext g o + tot irefs o ls) ec r1 v2 r2
+                  (fun o => eq_trans (C_rc _ _ HC o) (eq_sym (Nat.add_assoc _ _ _))) SC SW) as SS.
+    assert (LEN : length (v2 ++ ec) <= length (vec g)).
+    { apply cnt_len_le. intros o. rewrite cnt_app. destruct (SS o) as [_ [B _]]. lia. }
+    rewrite app_length in LEN.
+    injection Hx as <- <- <- <-. phi_norm g. cbn [vec set_mtx set_vec set_rc set_gh log_reaped].
+    rewrite wst_cons. cbn [wi].
+    assert (wst (if hascb (cf g) then cbs_cont ec ec (length v2) else [IClear SRC_CLEAR ec; IRelock (length v2)]) <= 4 * length ec + 4).
+    { destruct (hascb (cf g)); [rewrite Hec; cbn [cbs_cont]; wnorm; lia|wnorm; lia]. }
+    lia.
+  - (* ICb *)
+    assert (OKI : cb_ok g (ICb o rest ec esz)). { apply (B_ok _ _ HB t). rewrite (stk_of_at _ _ _ Hl), Hs. left. reflexivity. }
+    destruct OKI as [K1 [K2 [K3 [K4 [K5 K6]]]]].
+    assert (created g o = true /\ cbc g o = 0) as [CR CZ].
+    { split; [|apply K4; left; reflexivity]. apply (C_reaped _ _ HC o). apply K6, K3. left. reflexivity. }
+    pose proof (phi_cb g (S (ncb g)) o CR CZ) as PC.
+    set (g1 := log_cb (set_ncb g (S (ncb g))) o) in *.
+    destruct (memn (ncb g) (throws (cf g))).
+    + injection Hx as <- <- <- <-. wnorm. change (vec g1) with (vec g). lia.
+    + destruct (reenter g1 (cmode g o)) as [g2 push2] eqn:RE. injection Hx as <- <- <- <-.
+      destruct (reenter_mu _ _ _ _ RE) as [A B]. rewrite B. change (vec g1) with (vec g).
+      rewrite wst_app.
+      assert (wst (cbs_cont rest ec esz) < wi (ICb o rest ec esz)). { destruct rest; cbn [cbs_cont]; wnorm; lia. }
+      lia.
+  - (* IDtor *)
+    assert (created g o = true /\ dcnt g o = 0) as [CR DZ].
+    { pose proof (ref_here ls t l _ st Hl Hs idtor o) as T. cbn [idtor] in T. rewrite cnt_cons, Nat.eqb_refl in T.
+      pose proof (C_life _ _ HC o) as L. destruct (rc g o =? 0); [|lia]. destruct (created g o); [split; [reflexivity|lia]|lia]. }
+    pose proof (phi_d g o CR DZ) as PD.
+    destruct (src <? 2).
+    + destruct (reenter (log_d g o) (dmode g o)) as [g2 push2] eqn:RE. injection Hx as <- <- <- <-.
+      destruct (reenter_mu _ _ _ _ RE) as [A B]. rewrite B. change (vec (log_d g o)) with (vec g). cbn [wi]. lia.
+    + injection Hx as <- <- <- <-. wnorm. change (vec (log_d g o)) with (vec g). lia.
+Qed.
+
+Lemma wl_eq l : wl l = list_sum (map wprog (prog l)) + wst (stk l).
+Proof. reflexivity. Qed.
+Definition mug (g : glob) (ls : list loc) : nat := phi g + 4 * length (vec g) + list_sum (map wl ls).
+
+Lemma exec_Inv g ls t l i st c g' r' push es p :
+  Inv g ls -> nth_error ls t = Some l -> stk l = i :: st -> exec t c g (rv l) i = Some (g', r', push, es) ->
+  Inv g' (upd ls t (Loc p (push ++ st) r')).
+Proof.
+  intros [HC [HL HB]] Hl Hs Hx. split; [|split].
+  - eapply exec_InvC; eauto.
+  - eapply exec_InvL; eauto.
+  - eapply exec_InvB; eauto.
+Qed.
+
+Lemma exec_mug g ls t l i st c g' r' push es :
+  Inv g ls -> nth_error ls t = Some l -> stk l = i :: st -> exec t c g (rv l) i = Some (g', r', push, es) ->
+  mug g' (upd ls t (Loc (prog l) (push ++ st) r')) < mug g ls.
+Proof.
+  intros HI Hl Hs Hx. pose proof (exec_mu _ _ _ _ _ _ _ _ _ _ _ HI Hl Hs Hx) as E.
+  pose proof (sum_upd wl ls t l (Loc (prog l) (push ++ st) r') Hl) as SU.
+  unfold mug. rewrite (wl_eq l), (wl_eq (Loc _ _ _)) in SU. cbn [prog stk] in SU. rewrite Hs, wst_app, wst_cons in SU. lia.
+Qed.
+
+Lemma invisible_exec t g r i : visible g i = false -> exec t 0 g r i <> None.
+Proof.
+  intros V. destruct i; cbn [visible] in V; try discriminate; cbn [exec]; unfold try_acq, lock_acq, unlock; rewrite ?V; try discriminate.
+  all: repeat match goal with
+       | |- context [if ?x then _ else _] => destruct x
+       | |- context [match ?x with _ => _ end] => destruct x
+       end; discriminate.
+Qed.
+
+Lemma settle_mug fuel : forall t g r st evs ls p g2 r2 st2 es2,
+  Inv g ls -> nth_error ls t = Some (Loc p st r) -> settle fuel t g r st evs = (g2, r2, st2, es2) ->
+  Inv g2 (upd ls t (Loc p st2 r2)) /\ mug g2 (upd ls t (Loc p st2 r2)) <= mug g ls /\
+  (forall i st', st = i :: st' -> visible g i = false -> fuel <> 0 -> mug g2 (upd ls t (Loc p st2 r2)) < mug g ls).
+Proof.
+  induction fuel as [|f IH]; intros t g r st evs ls p g2 r2 st2 es2 HI Hl Hs; cbn [settle] in Hs.
+  - inversion Hs; subst. rewrite (upd_same _ _ _ Hl). split; [exact HI|split; [lia|intros ? ? ? ? F; congruence]].
+  - destruct st as [|i st']; [inversion Hs; subst; rewrite (upd_same _ _ _ Hl); split; [exact HI|split; [lia|intros ? ? E; discriminate E]]|].
+    destruct (visible g i) eqn:V; [inversion Hs; subst; rewrite (upd_same _ _ _ Hl); split; [exact HI|split; [lia|intros ? ? E V'; inversion E; subst; congruence]]|].
+    destruct (exec t 0 g r i) as [[[[g' r'] push] es]|] eqn:E; [|exfalso; apply (invisible_exec t g r i V E)].
+    pose proof (exec_Inv g ls t _ i st' 0 g' r' push es p HI Hl eq_refl E) as H1.
+    pose proof (exec_mug g ls t _ i st' 0 g' r' push es HI Hl eq_refl E) as M1. cbn [prog] in M1.
+    destruct (IH t g' r' (push ++ st') (evs ++ es) _ p g2 r2 st2 es2 H1 (nth_upd_eq _ _ _ _ Hl) Hs) as [H2 [M2 _]].
+    rewrite upd_upd in H2, M2. split; [exact H2|split; [lia|intros; lia]].
+Qed.
+
+Lemma tstep_mug g ls t c l g' l' es :
+  Inv g ls -> nth_error ls t = Some l -> tstep t c g l = Some (g', l', es) -> mug g' (upd ls t l') < mug g ls.
+Proof.
+  intros HI Hl Hs. unfold tstep in Hs.
+  assert (FIRE : forall p i st ls0, Inv g ls0 -> nth_error ls0 t = Some (Loc p (i :: st) (rv l)) ->
+            forall g2 l2 es2,
+            (if visible g i then
+               match exec t c g (rv l) i with
+               | None => None
+               | Some (g', r', push, es) =>
+                 let '(g2, r2, st2, es2) := settle settle_fuel t g' r' (push ++ st) es in Some (g2, Loc p st2 r2, es2)
+               end
+             else let '(g2, r2, st2, es2) := settle settle_fuel t g (rv l) (i :: st) [] in Some (g2, Loc p st2 r2, es2))
+            = Some (g2, l2, es2) -> mug g2 (upd ls0 t l2) < mug g ls0).
+  { intros p i st ls0 HI0 Hl0 g2 l2 es2 H. destruct (visible g i) eqn:V.
+    - destruct (exec t c g (rv l) i) as [[[[g1 r1] push] es1]|] eqn:E; [|discriminate].
+      pose proof (exec_Inv g ls0 t _ i st c g1 r1 push es1 p HI0 Hl0 eq_refl E) as H1.
+      pose proof (exec_mug g ls0 t _ i st c g1 r1 push es1 HI0 Hl0 eq_refl E) as M1. cbn [prog] in M1.
+      destruct (settle settle_fuel t g1 r1 (push ++ st) es1) as [[[g3 r3] st3] es3] eqn:S. inversion H; subst.
+      destruct (settle_mug _ _ _ _ _ _ _ _ _ _ _ _ H1 (nth_upd_eq _ _ _ _ Hl0) S) as [_ [M2 _]]. rewrite upd_upd in M2. lia.
+    - destruct (settle settle_fuel t g (rv l) (i :: st) []) as [[[g3 r3] st3] es3] eqn:S. inversion H; subst.
+      destruct (settle_mug _ _ _ _ _ _ _ _ _ _ _ _ HI0 Hl0 S) as [_ [_ M3]]. apply (M3 i st eq_refl V). discriminate. }
+  destruct l as [pr sk r]. cbn [stk prog rv] in *. destruct sk as [|i st].
+  - destruct pr as [|o pr]; [discriminate|].
+    set (l0 := Loc pr [IInvoke o] r).
+    assert (H0 : Inv g (upd ls t l0)).
+    { destruct HI as [HC [HL HB]]. split; [|split].
+      - apply (InvC_invoke g ls t _ o pr HC Hl eq_refl).
+      - apply (InvL_invoke g ls t _ o pr HL Hl eq_refl).
+      - apply (InvB_invoke g ls t _ o pr HB Hl eq_refl). }
+    assert (E0 : mug g (upd ls t l0) = mug g ls).
+    { unfold mug. pose proof (sum_upd wl ls t _ l0 Hl) as SU. rewrite (wl_eq (Loc (o :: pr) [] r)), (wl_eq l0) in SU. change (stk l0) with [IInvoke o] in SU. change (prog l0) with pr in SU. cbn [prog stk map] in SU.
+      rewrite list_sum_cons in SU. cbn [wst map wi list_sum fold_right] in SU. lia. }
+    pose proof (FIRE pr (IInvoke o) [] _ H0 (nth_upd_eq _ _ _ _ Hl) g' l' es Hs) as H1.
+    rewrite upd_upd in H1. lia.
+  - apply (FIRE pr i st ls HI Hl g' l' es Hs).
+Qed.
+
+Definition any_choice (c : nat) : bool := true.
+Lemma mu_mug s : mu s = mug (gl s) (thr s).
+Proof. reflexivity. Qed.
+
+Lemma mu_dec s t c : Inv (gl s) (thr s) -> any_choice c = true -> enabledD s t c -> mu (stepD s (t, c)) < mu s.
+Proof.
+  intros HI _ [l [r [Hl Hs]]]. destruct r as [[g' l'] es].
+  unfold step, sys_step. rewrite Hl, Hs. cbn [fst]. rewrite !mu_mug. cbn [gl thr].
+  apply (tstep_mug _ _ _ _ _ _ _ _ HI Hl Hs).
+Qed.
+
+(* every schedule makes at most mu(s) moves: time-outs, re-entrant calls and objects handed over by destructors
+   and callbacks included, no run goes on for ever *)
+Lemma bounded_work c progs s sc : R c progs s -> moves glob loc tstep s sc <= mu s.
+Proof.
+  intros HR. eapply (moves_le_mu glob loc tstep mu Inv Inv_step any_choice); eauto.
+  - intros s0 t c0. apply mu_dec.
+  - apply (R_inv _ _ _ HR).
+  - unfold sched_ok. apply forallb_forall. reflexivity.
+Qed.
+
+(* the choice matters only as "time-out or not" *)
+Lemma try_acq_choice t c g : c <> 2 -> try_acq t c g = try_acq t 0 g.
+Proof. intros H. unfold try_acq. destruct (Nat.eqb_spec c 2); [contradiction|reflexivity]. Qed.
+Lemma exec_choice t c g r i : c <> 2 -> exec t c g r i = exec t 0 g r i.
+Proof. intros H. destruct i; cbn [exec]; rewrite ?(try_acq_choice t c g H); reflexivity. Qed.
+Lemma tstep_choice t c g l : c <> 2 -> tstep t c g l = tstep t 0 g l.
+Proof.
+  intros H. unfold tstep. destruct (stk l) as [|i st]; [destruct (prog l) as [|o p]; [reflexivity|]|];
+    cbv beta zeta; rewrite (exec_choice t c g _ _ H); reflexivity.
+Qed.
+
+Lemma pick_move s : (exists t c, any_choice c = true /\ enabledD s t c) \/ settled glob loc tstep any_choice s.
+Proof.
+  destruct (enabled_choice_dec glob loc tstep s 0) as [[t He]|Hn0]; [left; exists t, 0; split; [reflexivity|exact He]|].
+  destruct (enabled_choice_dec glob loc tstep s 2) as [[t He]|Hn2]; [left; exists t, 2; split; [reflexivity|exact He]|].
+  right. intros t c _ [l [r [Hl Hs]]]. destruct (Nat.eq_dec c 2) as [->|Hne].
+  - apply (Hn2 t). exists l, r. auto.
+  - apply (Hn0 t). exists l, r. split; [exact Hl|]. rewrite <- Hs. symmetry. apply tstep_choice. exact Hne.
+Qed.
+
+(* client obligation about DestroyContainer (the hypothesis of no_deadlock), required of the states the run passes through *)
+Definition gate_ok (s : sysD) : Prop :=
+  forall t l st, nth_error (thr s) t = Some l -> stk l = IDcGate :: st ->
+    wloc l = 1 /\ forall u l', u <> t -> nth_error (thr s) u = Some l' -> ~ (exists st', stk l' = IDcGate :: st').
+
+Lemma eventually_finishes c progs s : R c progs s ->
+  (forall s', reachable glob loc tstep s s' -> gate_ok s') ->
+  exists sc, sched_ok any_choice sc /\ length sc <= mu s /\ all_fin glob loc fin (runD s sc) = true.
+Proof.
+  intros HR HG.
+  destruct (settles glob loc tstep mu Inv Inv_step any_choice (fun s0 t c0 => mu_dec s0 t c0) pick_move s (R_inv _ _ _ HR))
+    as [sc [Hok [Hlen Hset]]].
+  exists sc. repeat split; auto.
+  apply (no_deadlock c progs).
+  - destruct HR as [sc0 ->]. exists (sc0 ++ sc). symmetry. apply run_app.
+  - intros t c0 _. apply Hset. reflexivity.
+  - apply HG. exists sc. reflexivity.
+Qed.
